@@ -401,7 +401,7 @@ def run_program(chk, sd, tag, prog, meta, tests, module):
     with open(os.path.join(pd, 'meta.ndjson'), 'w') as f:
         f.write(json.dumps(meta) + '\n')
     env = dict(PROG=os.path.join(pd, 'prog.ndjson'), TESTS=os.path.join(pd, 'tests.ndjson'), META=os.path.join(pd, 'meta.ndjson'))
-    rc, out = tlc_run(chk.wd, module, cfg=module, env=env, workers=1, timeout=3000, xmx='4g')
+    rc, out = tlc_run(chk.wd, module, cfg=module, env=env, workers=1, timeout=420 if module.startswith('Sym') else 3000, xmx='4g')
     r = parse_tlc(out)
     fails = []
     for line in out.splitlines():
@@ -456,6 +456,10 @@ def run_all(chk, r, generated):
                     raise MachineryError(f"{os.path.basename(path)} ({tname}): instruction outside the modelled subset: {e}")
                 jobs.append((f"{tname}-{v}-{origin}", prog, meta, isa_tests(r, v, chk.thorough), 'MachAvr' if syntax == 'avr' else 'Mach32',
                              os.path.basename(path), tname))
+                # the same program run once symbolically: every round of the loop body, for all states and keys
+                smeta = dict(meta, keybits=v, symrounds={128: 2, 192: 4, 256: 3}[v])
+                jobs.append((f"sym-{tname}-{v}-{origin}", prog, smeta, [dict(s=[0], k=[0], rounds=1)],
+                             'SymAvr' if syntax == 'avr' else 'Sym32', os.path.basename(path), tname))
     for (tname, v, ne) in selection_problems:
         chk.violation(f"backend selection: target {tname} size {v} selects {ne} instead of exactly one assembly back end",
                       dict(kind='backend-select', target=tname, size=v, nonempty=ne))
@@ -467,7 +471,15 @@ def run_all(chk, r, generated):
     with ThreadPoolExecutor(NCPU) as ex:
         results = list(ex.map(one, jobs))
     per = []
+    symbolic_ok, symbolic_inconclusive = [], []
     for (tag, prog, meta, tests, module, fname, tname), rr, fails, out in results:
+        if module.startswith('Sym'):
+            if 'TIMEOUT' in out or any(f.get('isafail') == 'symbolic budget exceeded' for f in fails) and len(fails) == 1:
+                symbolic_inconclusive.append(tag)       # not a verdict: the concrete runs of the same program decide
+                continue
+            if not fails and rr['ok']:
+                symbolic_ok.append(tag)
+            fails = [f for f in fails if f.get('isafail') != 'symbolic budget exceeded']
         if not rr['distinct'] or (not fails and not rr['ok']):
             raise MachineryError(f"ISA model run failed for {tag}:\n{out[-1500:]}")
         chk.cov['states'] += rr['distinct']
@@ -487,6 +499,10 @@ def run_all(chk, r, generated):
                           dict(kind='isa', program=tag, file=fname, target=tname, failure=f, test=t))
     chk.cov['programs'] = programs
     chk.cov['isa_programs'] = per
+    chk.cov['symbolic_universal_runs_ok'] = symbolic_ok
+    chk.cov['symbolic_inconclusive'] = symbolic_inconclusive
+    chk.log(f"symbolic (all states, all keys, every round of the loop body): {len(symbolic_ok)} programs verified, "
+            f"{len(symbolic_inconclusive)} inconclusive")
     chk.cov['evaluations'] += sum(p['tests'] for p in per)
     chk.log(f"ISA models: {programs} programs executed by TLC, {sum(p['instruction_steps'] for p in per)} instruction steps, "
             f"{sum(p['failures'] for p in per)} failures")
